@@ -53,7 +53,7 @@ def run_trial(cfg, preempt=None, choices=None):
     workers = []
     counter = itertools.count()
     facts = {"ran": {}, "refused": [], "accepted": [], "max_live": 0, "live": 0, "overlap": False, "started_after_close": [],
-             "close_begun": None, "close_returned": None, "error": None, "pool_error": None}
+             "close_begun": None, "close_returned": None, "error": None, "pool_error": None, "refused_closed": []}
 
     class W(real_worker):
         def __init__(self, pool):
@@ -112,11 +112,24 @@ def run_trial(cfg, preempt=None, choices=None):
                 facts["accepted"].append(i)
             except T.NoFreeWorkersError:
                 facts["refused"].append(i)
+            except T.PoolError as x:
+                if facts["close_begun"] is not None:
+                    facts["refused_closed"].append(i)       # the pool was closed by the other thread meanwhile: legitimate
+                else:
+                    facts["error"] = ("process", i, x)
             except Exception as x:
                 facts["error"] = ("process", i, x)
             if pool.idle & pool.busy:
                 facts["overlap"] = True
         release.set()
+        if cfg.get("closer"):
+            sch.block_until(lambda: facts["close_returned"] is not None)
+            try:
+                pool.process(job(njobs))
+                facts["late_accepted"] = True
+            except Exception:
+                facts["late_accepted"] = False
+            return
         if not cfg["close_race"]:
             # wait until every accepted job has finished before closing
             sch.block_until(lambda: all(facts["ran"].get(i, 0) >= 1 for i in facts["accepted"]) and not pool.busy)
@@ -134,7 +147,18 @@ def run_trial(cfg, preempt=None, choices=None):
             facts["late_accepted"] = True
         except Exception:
             facts["late_accepted"] = False
+    def closer():
+        # another thread (daemon shutdown) closes the pool while the accept loop is still submitting
+        sch.block_until(lambda: "pool" in facts)
+        facts["close_begun"] = sch.step
+        try:
+            facts["pool"].close()
+        except Exception as x:
+            facts["error"] = ("close", x)
+        facts["close_returned"] = sch.step
     sch.spawn(submitter, "main")
+    if cfg.get("closer"):
+        sch.spawn(closer, "closer")
     try:
         sch.run()
     finally:
@@ -175,14 +199,14 @@ def check_trial(cfg, sch, f):
     twice = [i for i, n in f["ran"].items() if n > 1]
     if twice:
         viol("job-ran-twice", "jobs %r ran more than once" % twice)
-    unknown = set(range(cfg["njobs"])) - set(f["accepted"]) - set(f["refused"])
+    unknown = set(range(cfg["njobs"])) - set(f["accepted"]) - set(f["refused"]) - set(f["refused_closed"])
     if unknown and not f["error"]:
         viol("job-lost", "jobs %r neither accepted nor refused" % sorted(unknown))
     ran_refused = [i for i in f["refused"] if f["ran"].get(i)]
     if ran_refused:
         viol("refused-job-ran", "jobs %r were refused but ran" % ran_refused)
     never = [i for i in f["accepted"] if not f["ran"].get(i)]
-    if never and not cfg["close_race"]:
+    if never and not cfg["close_race"] and not cfg.get("closer"):
         viol("accepted-job-never-ran", "jobs %r were accepted but never ran (no close race)" % never)
     if f.get("late_accepted"):
         viol("closed-pool-accepts-job", "process() on a closed pool accepted a job")
@@ -194,7 +218,7 @@ def check_trial(cfg, sch, f):
         viol("idle-busy-overlap", "a worker is in the idle and the busy set at once")
     if not cfg["blocking"] and cfg["njobs"] <= size and f["refused"]:
         viol("refused-with-free-capacity", "%d instant jobs, THREADPOOL_SIZE=%d, yet %r refused" % (cfg["njobs"], size, f["refused"]))
-    if cfg["blocking"]:
+    if cfg["blocking"] and not cfg.get("closer"):
         want = min(cfg["njobs"], size)
         if len(f["accepted"]) != want:
             viol("blocking-accept-count", "jobs block until submission is over: expected exactly %d accepted, got %r (refused %r)" % (want, f["accepted"], f["refused"]))
@@ -220,6 +244,8 @@ def catalogue():
                     if blocking and njobs <= size and not close_race:
                         continue
                     out.append({"size": size, "minsize": minsize, "njobs": njobs, "blocking": blocking, "close_race": close_race})
+    for size, minsize, njobs in ((1, 1, 1), (1, 1, 2), (2, 1, 2), (2, 2, 3)):
+        out.append({"size": size, "minsize": minsize, "njobs": njobs, "blocking": False, "close_race": True, "closer": True})
     return out
 
 
@@ -228,6 +254,8 @@ def random_case(draw):
     size = draw(st.integers(1, 3))
     cfg = {"size": size, "minsize": draw(st.integers(1, size)), "njobs": draw(st.integers(1, 5)), "blocking": draw(st.booleans()),
            "close_race": draw(st.booleans())}
+    if draw(st.integers(0, 3)) == 0:
+        cfg.update(closer=True, close_race=True, blocking=False)
     return {"cfg": cfg, "choices": draw(st.lists(st.integers(0, 3), max_size=80))}
 
 
@@ -304,7 +332,7 @@ def run_live(case):
 def SHARDS(tier):
     cat = catalogue()
     # quick: every single deviation from run-to-block for all configurations, and every pair of deviations for the small ones
-    sh = [{"part": "enum", "cat": i, "preemptions": 2 if (tier != "quick" or (c["njobs"] <= 2 and c["size"] <= 2 and not c["blocking"])) else 1}
+    sh = [{"part": "enum", "cat": i, "preemptions": 2 if (tier != "quick" or (c["njobs"] <= 2 and c["size"] <= 2 and not c["blocking"] and not c.get("closer"))) else 1}
           for i, c in enumerate(cat)]
     sh += [{"part": "random"} for _ in range(4 if tier == "quick" else 8)]
     sh += [{"part": "live"}]
@@ -335,5 +363,5 @@ def run(ctx):
                     case = {"layer": "live", "size": size, "minsize": minsize, "extra": extra}
                     ctx.observe(case, run_live(case), True, ["live"])
     else:
-        ctx.search(random_case(), run_case, ctx.n(500, 6000), nontrivial=lambda c: len(c["choices"]) > 0,
+        ctx.search(random_case(), run_case, ctx.n(300, 6000), nontrivial=lambda c: len(c["choices"]) > 0,
                    labels=lambda c: ["random", "size:%d" % c["cfg"]["size"]], name="pool", max_rounds=4)
